@@ -278,7 +278,7 @@ SIM_TEXT = ("TLC checks the observer clauses of the property on the simulator me
             "the real simulator (random traces, delays, machines, stop settings, filters) are recorded through add-only hooks and "
             "every record is folded through the same observer (SimObs) by TLC; the verdict is the set of failing clauses on real executions")
 SIM_NOTE = ("trusted: TLC, the hook records, sim_driver; bounded: <= 2-4 packets, <= 2 machines per side, oracle budget <= 4; "
-            "the random part is sampling; known findings are matched by clause:signature")
+            "the random part is sampling; known findings (none at present) would be matched by clause:signature")
 for _p in ("C14", "C15", "C16", "C17", "C18", "C19"):
     META[_p] = dict(engine="simulator", level="model_checking", text=SIM_TEXT, note=SIM_NOTE,
                     design_ref="DESIGN.md section 6/" + _p,
